@@ -129,6 +129,32 @@ def main():
                 print(f"REPRODUCED: krylov_energy_minimization raised RecursionError although the solver "
                       f"succeeded ({where})")
                 return 1
+    # ---- the property's own clauses on the TRUE residual, incl. spaces smaller than max_krylov_dim with a tight low
+    # cluster under a few large, well separated eigenvalues (Lanczos loses orthogonality there: holding n vectors does
+    # not mean the Ritz pair is an eigenpair)
+    gen = torch.Generator().manual_seed(seed + 77)
+    for n, top in ((40, 3), (48, 4), (64, 5), (12, 2), (5, 1)):
+        ev = torch.cat([1e-3 * torch.rand(n - top, generator=gen, dtype=torch.float64),
+                        torch.tensor([50.0 * (k + 1) for k in range(top)], dtype=torch.float64)])
+        q, _ = torch.linalg.qr(torch.randn(n, n, generator=gen, dtype=dt))
+        h = (q * ev.to(dt)) @ q.mH
+        h = (h + h.mH) / 2
+        psi = torch.randn(n, generator=gen, dtype=dt)
+        for rtol in (1e-9, 1e-6):
+            res = mod.krylov_energy_minimization_impl(lambda x: h @ x, psi.clone(), residual_tolerance=rtol,
+                                                      norm_tolerance=1e-12, max_krylov_dim=100)
+            gs = res.ground_state
+            e = res.ground_energy if hasattr(res, "ground_energy") else torch.vdot(gs, h @ gs).real
+            true_res = float((h @ gs - e * gs).norm())
+            lam = float(torch.linalg.eigvalsh(h)[0])
+            where = f"n={n}, {top} large eigenvalues over a cluster of width 1e-3, residual_tol={rtol}, max_krylov_dim=100"
+            if res.converged and not res.happy_breakdown and true_res > 3 * rtol:
+                print(f"REPRODUCED: converged without breakdown but |H psi - E psi| = {true_res:.3g} > residual_tolerance "
+                      f"{rtol} ({where})")
+                return 1
+            if float(e) < lam - 1e-9 * (1 + abs(lam)):
+                print(f"REPRODUCED: energy {float(e)} below the lowest eigenvalue {lam} ({where})")
+                return 1
     print(f"NOT-REPRODUCED: random runs ({stats}) satisfy the flag / residual / unit-norm / restart clauses")
     return 0
 
